@@ -429,7 +429,7 @@ func (s *sched) choose(cur *thread) *thread {
 				// lowest id settles first; deterministic, no choice
 				return cands[0]
 			}
-			if s.autoAdvance && s.anyLive() {
+			if s.autoAdvance && len(s.threads) > 0 && !s.threads[0].done {
 				s.steps++
 				if s.steps > s.horizon {
 					s.abort("horizon: auto-advance never quiesces")
